@@ -13,7 +13,11 @@ use crate::minimize::minimize;
 use crate::plan::Plan;
 use crate::rng::{run_seed, Rng};
 
-pub const VERIF_ROOT: &str = "/verif";
+/// Root of the verification tree: where known_findings.txt, known/, replays/, logs/ and evidence/
+/// live. `./check` passes its own directory in VSIM_ROOT; /verif otherwise.
+pub fn verif_root() -> String {
+    std::env::var("VSIM_ROOT").ok().filter(|s| !s.is_empty()).unwrap_or_else(|| "/verif".to_string())
+}
 const HANG_SECS: u64 = 180;
 
 #[derive(Default)]
@@ -100,7 +104,7 @@ pub struct KnownFindings {
 impl KnownFindings {
     pub fn load() -> Self {
         let mut k = KnownFindings::default();
-        let path = format!("{VERIF_ROOT}/known_findings.txt");
+        let path = format!("{}/known_findings.txt", verif_root());
         if let Ok(text) = std::fs::read_to_string(path) {
             for line in text.lines() {
                 let line = line.trim();
@@ -152,7 +156,7 @@ fn execute_one(
 }
 
 pub fn replay_dir(prop: &str) -> String {
-    let d = format!("{VERIF_ROOT}/replays/{prop}");
+    let d = format!("{}/replays/{prop}", verif_root());
     let _ = std::fs::create_dir_all(&d);
     d
 }
@@ -441,7 +445,7 @@ pub fn run_batch(scen: &dyn Scenario, opts: &Options) -> i32 {
             if p != prop {
                 continue;
             }
-            let path = format!("{VERIF_ROOT}/{wit}");
+            let path = format!("{}/{wit}", verif_root());
             match load_replay(&path) {
                 Ok((plan, _)) => {
                     let mut ctx = Ctx::new(false);
@@ -698,7 +702,7 @@ fn write_evidence(scen: &dyn Scenario, opts: &Options, rep: &BatchReport, wall: 
         .set("assumptions", J::arr_s(&info.assumptions))
         .set("wall_s", J::Num((wall * 1000.0).round() / 1000.0))
         .set("violations", J::i(violations));
-    let dir = format!("{VERIF_ROOT}/evidence");
+    let dir = format!("{}/evidence", verif_root());
     let _ = std::fs::create_dir_all(&dir);
     let path = format!("{dir}/{prop}.json");
     if let Err(e) = std::fs::write(&path, j.to_string_pretty()) {
